@@ -455,6 +455,12 @@ def compile_ast(
         df = df.select(*left_col_names)
         right_df = right_df.select(*left_col_names)
 
+        if df.collect_schema() != right_df.collect_schema():
+            # compatible but different column types (e.g. Int64 / Float64): both inputs get the common supertypes
+            common_schema = pl.concat([df.limit(0), right_df.limit(0)], how="vertical_relaxed").collect_schema()
+            df = df.cast(dict(common_schema))
+            right_df = right_df.cast(dict(common_schema))
+
         # Use pl.union if available (Polars >= 1.35), otherwise use pl.concat
         # pl.union is faster than pl.concat for union operations
         # distinct=True means UNION (remove duplicates), distinct=False means UNION ALL (keep duplicates)
@@ -477,7 +483,8 @@ def compile_ast(
                 # For UNION ALL (not distinct), just concat
                 df = pl.concat([df, right_df])
 
-        # name_in_df and select remain the same (from left table)
+        # select remains the same (from left table); the hidden columns were dropped from the frame
+        name_in_df = {uid: name_in_df[uid] for uid in select}
 
     elif isinstance(nd, PolarsImpl):
         df = nd.df
